@@ -34,6 +34,8 @@ VERUS_VERSION = '0.2026.09.13'
 
 VERIF_FAIL = [
     ('postcondition not satisfied', 'postcondition'),
+    ('unable to prove post-condition of closure', 'closure-postcondition'),
+    ('unable to prove pre-condition of closure', 'closure-precondition'),
     ('precondition not satisfied', 'precondition-at-call'),
     ('precondition not met: index in bounds', 'bounds'),
     ('precondition not met', 'precondition-at-call'),
